@@ -1,5 +1,6 @@
 import Rcgen.Spec.Validate
 import Rcgen.Theorems.C02
+import Rcgen.Proofs.Validate
 /-
   C12 — constraints placed in certificates are enforced by independent validators.
   Spec: `Spec.validate` (RFC 5280 §6.1 restricted to what rcgen emits) and
@@ -145,5 +146,52 @@ theorem expected_examples :
     -- a path-length limit of 0 on the root forbids an intermediate
     expectedVerdict true true [win (.ca (some 0)) 2020 2040, win (.ca none) 2021 2039, win .noCa 2022 2038]
       1748736000 .serverAuth = false := by decide
+
+/-! ### the validator's verdict is the one the parameters imply -/
+
+abbrev Link := Proofs.Validate.Link
+abbrev chainOf := Proofs.Validate.chainOf
+
+/-- **the RFC 5280 §6.1 validator, run on what the certificates of a generated chain decode
+    to, returns the verdict the parameters imply** — for every chain anchor → … → leaf of any
+    length ≥ 2 in which each certificate is issued by the one before it, every parameter set of
+    every certificate (CA flag and path length, validity in any offset, key usages, extended
+    key usages, DNS / IP / directory name constraints, subject alternative names, anything
+    else), every verification time and purpose, and both validator profiles (anchor checked
+    like any CA or trusted for name and key only; keyCertSign required or not).  The records
+    are those of `cert_decodes_to_record` (C02): `chain_records_decode` below. -/
+theorem validator_verdict_is_implied (H : Hashes) (ac kc : Bool) (cas : List Link) (leaf : Link)
+    (t : Int) (u : Purpose) (hne : cas ≠ [])
+    (hc : ∀ l ∈ cas ++ [leaf], ∀ e ∈ l.p.customExts, e.oid ∉ Proofs.X509.knownOids) :
+    validate ac kc ((chainOf H (cas ++ [leaf])).map Proofs.CertDecode.modelTbs) t u =
+      expectedVerdict ac kc ((cas ++ [leaf]).map (·.p)) t u :=
+  Proofs.Validate.chain_verdict H ac kc cas leaf t u hne hc
+
+/-- strict DER decoding of the to-be-signed bytes of every certificate of the chain yields
+    exactly those records -/
+theorem chain_records_decode (l : List CertInputs) (h : ∀ ci ∈ l, Proofs.Validate.Good ci) :
+    l.mapM (fun ci => decodeTbsCert (encode (tbsCertificate ci.H ci.p ci.subject ci.issuer))) =
+      some (l.map Proofs.CertDecode.modelTbs) :=
+  Proofs.Validate.chain_decodes l h
+
+/-- the per-certificate readings, stated outright: what the validator reads from a decoded
+    certificate is what the parameters say -/
+theorem ca_clauses_from_requested (i : CertInputs)
+    (hc : ∀ e ∈ i.p.customExts, e.oid ∉ Proofs.X509.knownOids) (t : Int) (u : Purpose) :
+    isCaCert (Proofs.CertDecode.modelTbs i) = pIsCa i.p ∧
+    pathLen (Proofs.CertDecode.modelTbs i) = pPathLen i.p ∧
+    mayCertSign (Proofs.CertDecode.modelTbs i) = pMayCertSign i.p ∧
+    timeValid (Proofs.CertDecode.modelTbs i) t = pTimeValid i.p t ∧
+    ekuAllows (Proofs.CertDecode.modelTbs i) u = pEkuAllows i.p u ∧
+    leafNames (Proofs.CertDecode.modelTbs i) = i.p.sans.map reqSan :=
+  ⟨Proofs.Validate.isCa_model i hc, Proofs.Validate.pathLen_model i hc,
+   Proofs.Validate.mayCertSign_model i hc, Proofs.Validate.timeValid_model i t,
+   Proofs.Validate.ekuAllows_model i hc u, Proofs.Validate.leafNames_model i hc⟩
+
+/-- non-vacuity: a three-certificate chain with a path-length limit, a name constraint and a
+    leaf name outside it -/
+example : (Proofs.Validate.chainOf ⟨id, id, id⟩
+    [⟨win (.ca (some 1)) 2020 2040, ⟨.ed25519, [1]⟩⟩, ⟨win (.ca none) 2021 2039, ⟨.ed25519, [2]⟩⟩,
+     ⟨win .noCa 2022 2038, ⟨.ed25519, [3]⟩⟩]).length = 3 := rfl
 
 end Rcgen.Theorems.C12
